@@ -163,6 +163,32 @@ fn proof_prog<G: CurveTag>(prog: crate::program::Program, col: &mut Collector, p
     if d.to_bytes().ok().as_ref() != Some(&e) {
         return Err(Failure::new("C11:roundtrip", "to_bytes(from_bytes(e)) != e", pj()));
     }
+    // the other encoding mode of the same object round-trips to the same object as well
+    {
+        use ark_serialize::{CanonicalDeserialize, CanonicalSerialize};
+        let r = guarded(|| {
+            let mut u = vec![];
+            proof.serialize_uncompressed(&mut u).ok()?;
+            if u.len() != proof.uncompressed_size() {
+                return None;
+            }
+            let back = R1CSProof::<G>::deserialize_uncompressed(&u[..]).ok()?;
+            let mut u2 = vec![];
+            back.serialize_uncompressed(&mut u2).ok()?;
+            if u2 != u {
+                return None;
+            }
+            back.to_bytes().ok()
+        });
+        if r.ok().flatten().as_ref() != Some(&e) {
+            return Err(Failure::new("C11:roundtrip-uncompressed", "the uncompressed encoding of a proof does not decode back to the same object (or its length differs from uncompressed_size)", pj()));
+        }
+        let mut c = vec![];
+        proof.serialize_compressed(&mut c).ok();
+        if c != e || proof.compressed_size() != e.len() {
+            return Err(Failure::new("C11:to_bytes-vs-serialize", "to_bytes differs from serialize_compressed / compressed_size", pj()));
+        }
+    }
     if prefixes {
         // every strict prefix must be a format error
         for n in 0..e.len() {
